@@ -227,5 +227,19 @@ PLANS = {
              'configuration or with pending occurrences and then driven further; distinct by (spec, object, its history).',
         assumptions=['copies are taken from a const reference (a non-const lvalue selects back\'s forwarding constructor)'],
     ),
+    'C16': dict(
+        oracle='C16', level='exploration', mode='serial', libs=['-lboost_serialization'],
+        profiles=[('serial', 6)], curated=[], configs=[1, 2, 3, 4],
+        cp=dict(max_ops=22, auto_probe=True),
+        examples=(250, 2000), floor=(60, 600),
+        rule='Generated histories on nested machines (1-3 regions, each history policy, pseudo states, completion rows; states and '
+             'front-ends with and without do_serialize) with save + load into a freshly constructed machine (text and binary '
+             'archives) at arbitrary quiescent points with empty queues, then continuations on original and loaded machines. Oracle: '
+             'active states of all active machines equal at the save point; opted-in counters equal, others left at their default; '
+             'from then on the loaded machine produces token for token the trace of a fresh machine replaying the saved machine\'s '
+             'whole history (history memory is observed through later re-entries). Non-trivial = a save point with a non-initial '
+             'configuration or an inactive submachine with non-initial memory; distinct by (spec, configuration, archive format).',
+        assumptions=['save points have empty queues (documented precondition)', 'back and back11 only (backmp11 serialization is not part of the property)'],
+    ),
 }
 NOT_YET = {}
